@@ -26,6 +26,9 @@ FLAVOURS = {
         "bin": "target-tsan/x86_64-unknown-linux-gnu/mon/hsv",
         "run_env": {"TSAN_OPTIONS": "halt_on_error=0:exitcode=66:report_signal_unsafe=0"},
     },
+    # valgrind memcheck on the plain release build: invalid accesses, use of uninitialised values (not seen by ASan),
+    # invalid frees, definite/indirect leaks; the "binary" is a wrapper script, exit code 97 = memcheck reported something
+    "valgrind": {"cmd": CARGO + ["--release"], "bin": "valgrind-run.sh"},
     # Miri: undefined-behaviour and data-race interpreter; the "binary" is a wrapper around `cargo miri run`
     "miri": {"cmd": ["./miri-run.sh", "merge-fp"], "bin": "miri-run.sh"},
 }
@@ -48,6 +51,8 @@ def crash_signature(prop, crash):
         kind = "lsan"
     elif "ThreadSanitizer" in err:
         kind = "tsan"
+    elif crash.get("rc") == 97 or "definitely lost" in err or "Invalid read" in err or "Invalid write" in err or "uninitialised value" in err or "Invalid free" in err:
+        kind = "memcheck"
     elif "Data race detected" in err:
         kind = "miri-data-race"
     elif "Undefined Behavior" in err:
@@ -421,13 +426,18 @@ PROPS = {
     "C18": {
         "quick": [phase(16, 1.0, 90), phase(8, 0.5, 120, flavour="asan")],
         "thorough": [phase(16, 1.0, 900), phase(16, 1.0, 1500, flavour="asan"), phase(4, 1.0, 1200, flavour="tsan", streams=["threads"]),
+                     phase(16, 0.3, 1500, flavour="valgrind"),
                      phase(16, 1.0, 2400, flavour="miri")],
         "crash_is_violation": True,
         "rule": ("the C17 driver, which obeys the ownership protocol (every handle, filter and returned string destroyed exactly once by its "
                  "destroy function; borrowed entry pointers read immediately and dropped before the container is touched again), run (a) "
                  "natively as an abort monitor (a panic inside extern \"C\" kills the worker and is attributed through the progress marker), "
                  "(b) under AddressSanitizer + LeakSanitizer (halt_on_error, detect_leaks) in short processes, (c) in thorough under Miri "
-                 "(3 histories of 30 calls per shard; invalid references, leaks). Null sweep: every pointer parameter of every non-destroy "
+                 "(3 histories of 30 calls per shard; invalid references, leaks), under valgrind memcheck on the plain release build (use of "
+                 "uninitialised values, invalid accesses/frees, definite and indirect leaks) and, for the threads stream, under "
+                 "ThreadSanitizer. The driver also feeds failing calls 1..1100-byte texts of 1- to 4-byte characters (error-text sweep), "
+                 "values whose text carries NUL, argument pairs that cut a multi-byte character between them, and runs 2-4 threads each "
+                 "with its own handle pool. Null sweep: every pointer parameter of every non-destroy "
                  "function passed as null, one at a time (92 call sites): failure sentinel + error message, live handles untouched. "
                  "evaluations = calls; distinct = distinct histories + sweep sites"),
         "assumptions": ["the model's bookkeeping holds only pointers it owns and frees them at teardown, so a leak inside the library is unreachable at exit and reported by LSan",
